@@ -105,9 +105,38 @@ package pokerface
 // the measure is bounded from below
 //@ lemma SUMS_nonneg(g *game, k int) for SUMS induction k props C06 : (forall i :: 0 <= i && i < k ==> g.gs.Players[i].StackSize >= 0) ==> SUMS(g, k) >= 0
 //@ lemma CNA_range(g *game, k int) for CNA induction k props C06 : 0 <= CNA(g, k) && CNA(g, k) <= ite(k < 0, 0, k)
+// C05 (the round closes within one lap): an accepted action that neither lifts the wager to match nor puts its seat all-in
+// leaves exactly one seat fewer still to act; that number is at most the number of seats (CNA_range), and the round
+// closes as soon as the turn reaches a seat that has acted (RequestPlayerAction)
+// (stated as the [C05] clause of Pass / Fold / Check / Call)
 // an accepted action that leaves the round open has lowered the measure
 //@ pred DECR(g) = SUMS(g, len(g.gs.Players)) < old(SUMS(g, len(g.gs.Players)))
 //@    || (SUMS(g, len(g.gs.Players)) == old(SUMS(g, len(g.gs.Players))) && CNA(g, len(g.gs.Players)) < old(CNA(g, len(g.gs.Players))))
+
+// C05 (a betting round closes exactly when it should).
+// seats still in the hand among seats 0..k-1
+//@ fun CNAL(g *game, k int) int = ite(k <= 0, 0, CNAL(g, k - 1) + ite(g.gs.Players[k - 1].Fold, 0, 1))
+//@ lemma CNAL_same(g *game, k int) for CNAL induction k :
+//@      (forall i :: 0 <= i && i < k ==> g.gs.Players[i] == old(g.gs.Players[i]) && (g.gs.Players[i].Fold <==> old(g.gs.Players[i].Fold)))
+//@      ==> CNAL(g, k) == old(CNAL(g, k))
+// seats that can still bet (in the hand, with chips) among seats 0..k-1
+//@ fun CNMV(g *game, k int) int = ite(k <= 0, 0, CNMV(g, k - 1) + ite(g.gs.Players[k - 1].Fold || g.gs.Players[k - 1].StackSize == 0, 0, 1))
+//@ lemma CNMV_same(g *game, k int) for CNMV induction k :
+//@      (forall i :: 0 <= i && i < k ==> g.gs.Players[i] == old(g.gs.Players[i]) && (g.gs.Players[i].Fold <==> old(g.gs.Players[i].Fold))
+//@                && g.gs.Players[i].StackSize == old(g.gs.Players[i].StackSize))
+//@      ==> CNMV(g, k) == old(CNMV(g, k))
+// a seat owes nothing: it is out of the hand, all-in, or level with the wager to match
+//@ pred SETTLED(g, ps) = ps.Fold || ps.StackSize == 0 || ps.Wager == g.gs.Status.CurrentWager
+// every seat that has had its turn since the wager to match last went up owes nothing
+//@ pred OWES(g) = forall j :: 0 <= j && j < len(g.gs.Players) && g.gs.Players[j].Acted ==> SETTLED(g, g.gs.Players[j])
+// the seats that have had their turn since then form one clockwise run that ends just before seat c
+//@ pred SEGX(g, c) = forall j, i :: 0 <= j && j < len(g.gs.Players) && 0 <= i && i < len(g.gs.Players) && g.gs.Players[j].Acted ==>
+//@      (j < c && j < i && i < c ==> g.gs.Players[i].Acted) && (j > c && (i > j || i < c) ==> g.gs.Players[i].Acted)
+//@ pred NOBODYACTED(g) = forall i :: 0 <= i && i < len(g.gs.Players) ==> !g.gs.Players[i].Acted
+// the state in which the turn is passed on: the run ends with the seat that has just acted (or nobody has acted yet)
+//@ pred PRESEG(g) = SEGX(g, g.gs.Status.CurrentPlayer) && (NOBODYACTED(g) || g.gs.Players[g.gs.Status.CurrentPlayer].Acted)
+// a closed round: nobody still in the hand with chips owes anything - unless only one player is left, which ends the hand
+//@ pred NOOWE(g) = CNAL(g, len(g.gs.Players)) == 1 || (forall j :: 0 <= j && j < len(g.gs.Players) ==> SETTLED(g, g.gs.Players[j]))
 
 // pay: the single place where chips move from a stack to the table.
 //@ func (*player).pay(p, chips, isWager) (err)
@@ -199,14 +228,20 @@ package pokerface
 //@   requires WFG(g)
 //@   modifies nothing
 //@   ensures 0 <= res && res <= len(g.gs.Players)
+//@   ensures [C05] res == CNAL(g, len(g.gs.Players))
 //@   loop 1 invariant 0 <= aliveCount && aliveCount <= len(g.gs.Players) && aliveCount >= len(g.gs.Players) - (rangeindex + 1)
+//@   loop 1 invariant aliveCount == len(g.gs.Players) - (rangeindex + 1) + CNAL(g, rangeindex + 1)
 
 //@ func (*game).GetMovablePlayerCount(g) (res)
 //@   props C05
 //@   requires WFG(g)
 //@   modifies nothing
 //@   ensures 0 <= res && res <= len(g.gs.Players)
+//@   ensures [C05] res == 0 ==> (forall i :: 0 <= i && i < len(g.gs.Players) ==> g.gs.Players[i].Fold || g.gs.Players[i].StackSize == 0)
+//@   ensures [C05] res == CNMV(g, len(g.gs.Players))
+//@   loop 1 invariant mCount == len(g.gs.Players) - (rangeindex + 1) + CNMV(g, rangeindex + 1)
 //@   loop 1 invariant 0 <= mCount && mCount <= len(g.gs.Players) && mCount >= len(g.gs.Players) - (rangeindex + 1)
+//@   loop 1 invariant (exists i :: 0 <= i && i <= rangeindex && !(g.gs.Players[i].Fold || g.gs.Players[i].StackSize == 0)) ==> mCount >= len(g.gs.Players) - rangeindex
 
 // TURNOK: the current-player index is a seat or the "nobody" marker
 //@ pred TURNOK(g) = g.gs.Status.CurrentPlayer == 0 - 1 || (0 <= g.gs.Status.CurrentPlayer && g.gs.Status.CurrentPlayer < len(g.gs.Players))
@@ -285,6 +320,12 @@ package pokerface
 //@ pred NEEDAFTER(g) = ite(g.gs.Status.Round == "", len(g.gs.Players) * g.gs.Meta.HoleCardsCount + 8,
 //@      ite(g.gs.Status.Round == "preflop", 8, ite(g.gs.Status.Round == "flop", 4, ite(g.gs.Status.Round == "turn", 2, 0))))
 //@ pred DECKOK(g) = ROUNDVALID(g) && DECKROOM(g, NEEDAFTER(g))
+// community and burned cards of a street: none before the flop, then 3 / 4 / 5 on the board after 1 / 2 / 3 burned cards (C14, C05)
+//@ pred BOARDAT(g, r) = len(g.gs.Status.Board) == ite(r == "flop", 3, ite(r == "turn", 4, ite(r == "river", 5, 0)))
+//@    && len(g.gs.Status.Burned) == ite(r == "flop", 1, ite(r == "turn", 2, ite(r == "river", 3, 0)))
+//@ pred BOARDOK(g) = BOARDAT(g, g.gs.Status.Round)
+// a hand is over when one player is left or the river has been played (C05: a showdown happens on a five-card board)
+//@ pred HANDOVER(g) = CNAL(g, len(g.gs.Players)) == 1 || g.gs.Status.Round == "river"
 
 //@ pred ZEROBETS(g) = (forall i :: 0 <= i && i < len(g.gs.Players) ==> g.gs.Players[i].Wager == 0)
 //@    && g.gs.Status.CurrentWager == 0 && g.gs.Status.CurrentRoundPot == 0 && g.gs.Status.PreviousRaiseSize == 0
@@ -309,14 +350,15 @@ package pokerface
 // the round pot shown equals the wagers on the table (C01)
 //@ pred ROUNDPOT(g) = g.gs.Status.CurrentRoundPot == SUMW(g, len(g.gs.Players))
 
-//@ pred WAITINV(g) = ENGINE(g) && DECKOK(g) && TABLE(g) && WAITSET(g) && ROUNDPOT(g) && MINIBETOK(g)
-//@    && (g.gs.Status.CurrentEvent == "RoundStarted" ==> TURN(g) && g.gs.Status.Round != "" && !g.gs.Players[g.gs.Status.CurrentPlayer].Acted)
+//@ pred WAITINV(g) = ENGINE(g) && DECKOK(g) && TABLE(g) && WAITSET(g) && ROUNDPOT(g) && MINIBETOK(g) && BOARDOK(g)
+//@    && (g.gs.Status.CurrentEvent == "RoundStarted" ==> TURN(g) && g.gs.Status.Round != "" && !g.gs.Players[g.gs.Status.CurrentPlayer].Acted
+//@           && SEGX(g, g.gs.Status.CurrentPlayer) && OWES(g))
 //@    && (g.gs.Status.CurrentEvent != "RoundStarted" ==> ALLIDLE(g))
 //@    && (g.gs.Status.CurrentEvent == "AnteRequested" ==> g.gs.Status.Round == "" && ZEROBETS(g) && g.gs.Meta.Ante > 0)
 //@    && (g.gs.Status.CurrentEvent == "BlindsRequested" ==> g.gs.Status.Round == "preflop" && ZEROBETS(g) && g.gs.Status.PreviousRaiseSize == 0)
 //@    && (g.gs.Status.CurrentEvent == "ReadyRequested" && g.gs.Status.Round == "" ==> ZEROBETS(g))
-//@    && (g.gs.Status.CurrentEvent == "RoundClosed" ==> g.gs.Status.Round != "")
-//@    && (g.gs.Status.CurrentEvent == "GameClosed" ==> g.gs.Result != nil)
+//@    && (g.gs.Status.CurrentEvent == "RoundClosed" ==> g.gs.Status.Round != "" && NOOWE(g))
+//@    && (g.gs.Status.CurrentEvent == "GameClosed" ==> g.gs.Result != nil && HANDOVER(g))
 
 // what the RoundStarted / RoundClosed handlers leave untouched
 //@ pred QUIET(g) = unchanged(PlayerState.Wager) && unchanged(PlayerState.Pot) && unchanged(PlayerState.InitialStackSize)
@@ -337,6 +379,7 @@ package pokerface
 //@   props C04 C05
 //@   requires ENGINE(g) && DECKOK(g) && TABLE(g) && 0 <= g.gs.Status.CurrentPlayer && OTHERSIDLE(g) && ROUNDPOT(g) && MINIBETOK(g)
 //@   requires g.gs.Status.CurrentEvent == "RoundStarted" && g.gs.Status.Round != ""
+//@   requires PRESEG(g) && OWES(g) && BOARDOK(g)
 //@   modifies @CHAIN
 //@   allocs elems(string), elems(Player), settlement.Result
 //@   ensures err == nil && WAITINV(g) && QUIET(g)
@@ -370,6 +413,11 @@ package pokerface
 //@   requires GameEvent_Started <= event && event <= GameEvent_GameClosed
 //@   requires ENGINE(g) && ROUNDVALID(g) && ROUNDPOT(g)
 //@   requires event > GameEvent_Started ==> MINIBETOK(g)
+//@   requires event == GameEvent_FlopRoundEntered ==> BOARDAT(g, "preflop")
+//@   requires event == GameEvent_TurnRoundEntered ==> BOARDAT(g, "flop")
+//@   requires event == GameEvent_RiverRoundEntered ==> BOARDAT(g, "turn")
+//@   requires event != GameEvent_FlopRoundEntered && event != GameEvent_TurnRoundEntered && event != GameEvent_RiverRoundEntered ==> BOARDOK(g)
+//@   requires event >= GameEvent_GameCompleted ==> HANDOVER(g)
 //@   requires event == GameEvent_Started ==> ZEROBETS(g) && g.gs.Status.Round == "" && DECKOK(g)
 //@   requires event == GameEvent_Initialized ==> ZEROBETS(g) && g.gs.Status.Round == "" && DECKOK(g)
 //@   requires event == GameEvent_Prepared ==> ZEROBETS(g) && g.gs.Status.Round == "" && DECKOK(g) && ALLIDLE(g)
@@ -388,7 +436,8 @@ package pokerface
 //@             && (g.gs.Status.Round == "preflop" ==> ALLIDLE(g))
 //@   requires event == GameEvent_RoundPrepared ==> IDLEPRE(g) && g.gs.Status.Round != "" && DECKOK(g)
 //@   requires event == GameEvent_RoundStarted ==> TABLE(g) && DECKOK(g) && 0 <= g.gs.Status.CurrentPlayer && OTHERSIDLE(g) && g.gs.Status.Round != ""
-//@   requires event == GameEvent_RoundClosed ==> TABLE(g) && DECKOK(g) && g.gs.Status.Round != ""
+//@             && PRESEG(g) && OWES(g)
+//@   requires event == GameEvent_RoundClosed ==> TABLE(g) && DECKOK(g) && g.gs.Status.Round != "" && NOOWE(g)
 //@   requires event >= GameEvent_GameCompleted ==> ZEROBETS(g) && ALLIDLE(g) && DECKOK(g)
 //@   requires event == GameEvent_SettlementCompleted || event == GameEvent_GameClosed ==> g.gs.Result != nil
 //@   modifies @CHAIN
@@ -420,11 +469,19 @@ package pokerface
 //@   ensures [C13] ANYBLIND(g) && (event == GameEvent_Prepared || (event == GameEvent_Readiness && old(g.gs.Status.Round) == ""))
 //@             ==> g.gs.Status.CurrentEvent == "BlindsRequested" || g.gs.Status.CurrentEvent == "AnteRequested"
 //@   ensures event >= GameEvent_GameCompleted ==> g.gs.Status.CurrentEvent == "GameClosed" && g.gs.Result != nil
+//@   -- C05: closing the hand deals no further cards
+//@   ensures [C05 C14] event >= GameEvent_GameCompleted ==> len(g.gs.Status.Board) == old(len(g.gs.Status.Board))
+//@             && len(g.gs.Status.Burned) == old(len(g.gs.Status.Burned)) && g.gs.Status.CurrentDeckPosition == old(g.gs.Status.CurrentDeckPosition)
+//@   -- C05: with fewer than two players able to bet a later street is dealt but no betting round is opened
+//@   ensures [C05] (event == GameEvent_FlopRoundEntered || event == GameEvent_TurnRoundEntered || event == GameEvent_RiverRoundEntered
+//@             || (event == GameEvent_RoundInitialized && old(g.gs.Status.Round) != "preflop")) && CNMV(g, len(g.gs.Players)) <= 1
+//@             ==> g.gs.Status.CurrentEvent == "RoundClosed"
 
 //@ func (*game).Resume(g) (err)
 //@   props C04 C05 C06
 //@   requires ENGINE(g) && DECKOK(g) && TABLE(g) && 0 <= g.gs.Status.CurrentPlayer && OTHERSIDLE(g) && ROUNDPOT(g) && MINIBETOK(g)
 //@   requires g.gs.Status.CurrentEvent == "RoundStarted" && g.gs.Status.Round != ""
+//@   requires PRESEG(g) && OWES(g) && BOARDOK(g)
 //@   modifies @CHAIN
 //@   allocs elems(string), elems(Player), settlement.Result
 //@   ensures err == nil && WAITINV(g) && QUIET(g)
@@ -442,7 +499,7 @@ package pokerface
 
 //@ func (*game).StartRound(g) (err)
 //@   props C04 C05
-//@   requires IDLEPRE(g) && ROUNDVALID(g) && g.gs.Status.Round != "" && DECKOK(g) && g.gs.Status.CurrentEvent == "RoundPrepared" && ROUNDPOT(g) && MINIBETOK(g)
+//@   requires IDLEPRE(g) && ROUNDVALID(g) && g.gs.Status.Round != "" && DECKOK(g) && g.gs.Status.CurrentEvent == "RoundPrepared" && ROUNDPOT(g) && MINIBETOK(g) && BOARDOK(g)
 //@   modifies @CHAIN
 //@   allocs elems(string), elems(Player), settlement.Result
 //@   ensures err == nil && WAITINV(g)
@@ -527,10 +584,12 @@ package pokerface
 //@ pred AFTERACTION(g) = WAITINV(g) && (g.gs.Status.CurrentEvent == "RoundStarted" || g.gs.Status.CurrentEvent == "RoundClosed")
 
 //@ func (*player).Pass(p) (err)
-//@   props C04 C11 C07 C06
+//@   props C04 C11 C07 C06 C05
 //@   requires WFP(p) && WAITINV(p.game)
 //@   modifies @ACTION
 //@   allocs Action, elems(string), elems(Player), settlement.Result
+//@   ensures [C05] old(hasStr(p.state.AllowedActions, "pass")) && p.game.gs.Status.CurrentEvent == "RoundStarted" && p.game.gs.Status.CurrentWager == old(p.game.gs.Status.CurrentWager)
+//@      && (p.state.StackSize > 0 || old(p.state.StackSize) == 0) ==> CNA(p.game, len(p.game.gs.Players)) == old(CNA(p.game, len(p.game.gs.Players))) - 1
 //@   ensures [C04] !old(hasStr(p.state.AllowedActions, "pass")) ==> err != nil
 //@   ensures !old(hasStr(p.state.AllowedActions, "pass")) ==> UNCH()
 //@   ensures old(hasStr(p.state.AllowedActions, "pass")) ==> err == nil && AFTERACTION(p.game) && NOCHIPMOVE()
@@ -539,10 +598,12 @@ package pokerface
 //@   ensures [C06] err == nil && old(p.game.gs.Status.CurrentEvent) == "RoundStarted" && p.game.gs.Status.CurrentEvent == "RoundStarted" ==> DECR(p.game)
 
 //@ func (*player).Fold(p) (err)
-//@   props C04 C11 C07 C06
+//@   props C04 C11 C07 C06 C05
 //@   requires WFP(p) && WAITINV(p.game)
 //@   modifies @ACTION
 //@   allocs Action, elems(string), elems(Player), settlement.Result
+//@   ensures [C05] old(hasStr(p.state.AllowedActions, "fold")) && p.game.gs.Status.CurrentEvent == "RoundStarted" && p.game.gs.Status.CurrentWager == old(p.game.gs.Status.CurrentWager)
+//@      && (p.state.StackSize > 0 || old(p.state.StackSize) == 0) ==> CNA(p.game, len(p.game.gs.Players)) == old(CNA(p.game, len(p.game.gs.Players))) - 1
 //@   ensures [C04] !old(hasStr(p.state.AllowedActions, "fold")) ==> err == ErrInvalidAction && UNCH()
 //@   ensures old(hasStr(p.state.AllowedActions, "fold")) ==> err == nil && AFTERACTION(p.game) && NOCHIPMOVE() && p.state.Fold
 //@             && p.game.gs.Status.PreviousRaiseSize == old(p.game.gs.Status.PreviousRaiseSize)
@@ -550,20 +611,24 @@ package pokerface
 //@   ensures [C06] err == nil && old(p.game.gs.Status.CurrentEvent) == "RoundStarted" && p.game.gs.Status.CurrentEvent == "RoundStarted" ==> DECR(p.game)
 
 //@ func (*player).Check(p) (err)
-//@   props C04 C11 C07 C06
+//@   props C04 C11 C07 C06 C05
 //@   requires WFP(p) && WAITINV(p.game)
 //@   modifies @ACTION
 //@   allocs Action, elems(string), elems(Player), settlement.Result
+//@   ensures [C05] old(hasStr(p.state.AllowedActions, "check")) && p.game.gs.Status.CurrentEvent == "RoundStarted" && p.game.gs.Status.CurrentWager == old(p.game.gs.Status.CurrentWager)
+//@      && (p.state.StackSize > 0 || old(p.state.StackSize) == 0) ==> CNA(p.game, len(p.game.gs.Players)) == old(CNA(p.game, len(p.game.gs.Players))) - 1
 //@   ensures [C04] !old(hasStr(p.state.AllowedActions, "check")) ==> err == ErrInvalidAction && UNCH()
 //@   ensures old(hasStr(p.state.AllowedActions, "check")) ==> err == nil && AFTERACTION(p.game) && NOCHIPMOVE()
 //@             && p.game.gs.Status.PreviousRaiseSize == old(p.game.gs.Status.PreviousRaiseSize)
 //@   ensures [C06] old(hasStr(p.state.AllowedActions, "check")) && p.game.gs.Status.CurrentEvent == "RoundStarted" ==> DECR(p.game)
 
 //@ func (*player).Call(p) (err)
-//@   props C04 C11 C12 C01 C07 C06
+//@   props C04 C11 C12 C01 C07 C06 C05
 //@   requires WFP(p) && WAITINV(p.game)
 //@   modifies @ACTION
 //@   allocs Action, elems(string), elems(Player), settlement.Result
+//@   ensures [C05] old(hasStr(p.state.AllowedActions, "call")) && p.game.gs.Status.CurrentEvent == "RoundStarted" && p.game.gs.Status.CurrentWager == old(p.game.gs.Status.CurrentWager)
+//@      && (p.state.StackSize > 0 || old(p.state.StackSize) == 0) ==> CNA(p.game, len(p.game.gs.Players)) == old(CNA(p.game, len(p.game.gs.Players))) - 1
 //@   ensures [C04] !old(hasStr(p.state.AllowedActions, "call")) ==> err == ErrInvalidAction && UNCH()
 //@   ensures old(hasStr(p.state.AllowedActions, "call")) ==> err == nil && AFTERACTION(p.game)
 //@   ensures [C11] old(hasStr(p.state.AllowedActions, "call")) ==> p.state.Wager == p.game.gs.Status.CurrentWager
@@ -573,7 +638,7 @@ package pokerface
 //@   ensures [C06] err == nil && old(p.game.gs.Status.CurrentEvent) == "RoundStarted" && p.game.gs.Status.CurrentEvent == "RoundStarted" ==> DECR(p.game)
 
 //@ func (*player).Allin(p) (err)
-//@   props C04 C11 C12 C01 C07 C06
+//@   props C04 C11 C12 C01 C07 C06 C05
 //@   requires WFP(p) && WAITINV(p.game)
 //@   modifies @ACTION
 //@   allocs Action, elems(string), elems(Player), settlement.Result
@@ -586,7 +651,7 @@ package pokerface
 //@   ensures [C06] err == nil && old(p.game.gs.Status.CurrentEvent) == "RoundStarted" && p.game.gs.Status.CurrentEvent == "RoundStarted" ==> DECR(p.game)
 
 //@ func (*player).Bet(p, chips) (err)
-//@   props C04 C11 C12 C01 C07 C06
+//@   props C04 C11 C12 C01 C07 C06 C05
 //@   requires WFP(p) && WAITINV(p.game)
 //@   modifies @ACTION
 //@   allocs Action, elems(string), elems(Player), settlement.Result
@@ -601,7 +666,7 @@ package pokerface
 //@   ensures [C06] err == nil && old(p.game.gs.Status.CurrentEvent) == "RoundStarted" && p.game.gs.Status.CurrentEvent == "RoundStarted" ==> DECR(p.game)
 
 //@ func (*player).Raise(p, chipLevel) (err)
-//@   props C04 C12 C01 C07 C06
+//@   props C04 C12 C01 C07 C06 C05
 //@   requires WFP(p) && WAITINV(p.game)
 //@   modifies @ACTION
 //@   allocs Action, elems(string), elems(Player), settlement.Result
@@ -755,7 +820,7 @@ package pokerface
 //@   ensures [C06] old(g.gs.Status.CurrentEvent) == "ReadyRequested" ==> err == nil && WAITINV(g)
 
 //@ func (*game).Next(g) (err)
-//@   props C04 C06 C14 C07
+//@   props C04 C05 C06 C14 C07
 //@   requires WAITINV(g)
 //@   modifies @OPS
 //@   allocs elems(string), elems(Player), settlement.Result, Action
@@ -767,6 +832,13 @@ package pokerface
 //@             || (old(g.gs.Status.Round) == "flop" && g.gs.Status.Round == "turn")
 //@             || (old(g.gs.Status.Round) == "turn" && g.gs.Status.Round == "river")
 //@   ensures [C06] old(g.gs.Status.CurrentEvent) == "RoundClosed" && old(g.gs.Status.Round) == "river" ==> g.gs.Status.CurrentEvent == "GameClosed"
+//@   -- C05: with one player left the hand ends at once, without dealing further cards
+//@   ensures [C05] old(g.gs.Status.CurrentEvent) == "RoundClosed" && old(CNAL(g, len(g.gs.Players))) == 1 ==> g.gs.Status.CurrentEvent == "GameClosed"
+//@             && len(g.gs.Status.Board) == old(len(g.gs.Status.Board)) && len(g.gs.Status.Burned) == old(len(g.gs.Status.Burned))
+//@             && g.gs.Status.CurrentDeckPosition == old(g.gs.Status.CurrentDeckPosition)
+//@   -- C05: with fewer than two players able to bet no further betting round is opened: the next street closes at once
+//@   ensures [C05] old(g.gs.Status.CurrentEvent) == "RoundClosed" && CNMV(g, len(g.gs.Players)) <= 1
+//@             ==> g.gs.Status.CurrentEvent == "RoundClosed" || g.gs.Status.CurrentEvent == "GameClosed"
 //@   ensures [C06] g.gs.Status.CurrentEvent == "GameClosed" ==> g.gs.Result != nil
 
 // what NewGame/ApplyOptions hand to Start: structure without the checks Start itself performs
